@@ -483,7 +483,7 @@ def all_jobs():
         J.append(dict(id='bi_' + name, src='blocc/builtin/builtin_%s.cpp' % name, contract='builtin_generic.c', enforce=mg, roots=[mg], replace=list(MEMB_REPLACE) + [V_CTOR_IMAG], cut=list(MEMB_CUT) + [V_CTOR_IMAG],
                       props=['C01', 'C05'] + (['C02'] if (ftype or follows or tyform) else []) + (['C03', 'C04', 'C10'] if name in ('int', 'num') else []) + (['C10'] if name == 'isnum' else []) + (['C03'] if name == 'mod' else []), pretty='bloc::%s::value' % cls, canaries=['normal', 'exceptional'], unwind=uw,
                       unwind_why=uw_why,
-                      defines=['BUILTIN_FN=' + mg, 'BUILTIN_CLASS=' + cls, 'BUILTIN_NARGS=%d' % nargs] + (['BUILTIN_STR_MAX=%d' % strmax] if strmax else []) + (['BUILTIN_TYPE=' + ftype] if ftype else []) + (['BUILTIN_TYPE_FOLLOWS_COMPLEX'] if follows else []) + ([tyform] if tyform else []) + (['BUILTIN_RESULT_IS_CONTAINER'] if ftype in ('LITERAL', 'TABCHAR') else []) + (['BUILTIN_ABS'] if name == 'abs' else []) + (['BUILTIN_IS_INT'] if name == 'int' else []) + (['BUILTIN_IS_NUM'] if name == 'num' else []) + (['BUILTIN_IS_ISNUM'] if name == 'isnum' else []) + (['BUILTIN_IS_MOD'] if name == 'mod' else []),
+                      defines=['BUILTIN_FN=' + mg, 'BUILTIN_CLASS=' + cls, 'BUILTIN_NARGS=%d' % nargs] + (['BUILTIN_STR_MAX=%d' % strmax] if strmax else []) + (['BUILTIN_TYPE=' + ftype] if ftype else []) + (['BUILTIN_TYPE_FOLLOWS_COMPLEX'] if follows else []) + ([tyform] if tyform else []) + (['BUILTIN_RESULT_IS_CONTAINER'] if ftype in ('LITERAL', 'TABCHAR') else []) + (['BUILTIN_ABS'] if name == 'abs' else []) + (['BUILTIN_IS_INT'] if name == 'int' else []) + (['BUILTIN_IS_NUM'] if name == 'num' else []) + (['BUILTIN_IS_ISNUM'] if name == 'isnum' else []) + (['BUILTIN_IS_MOD'] if name == 'mod' else []) + (['FIND_SCAN_VARIANT'] if name == 'replace' else []),
                       replay=dict(kind='evalnode', headers=['blocc/builtin/builtin_%s.h' % name], mirror_class=cls, children=nargs,
                                   construct='new bloc::%s(std::vector<bloc::Expression*>{%s})' % (cls, ', '.join('kids[%d]' % i for i in range(nargs))),
                                   script='%s(%s)' % (name, ', '.join('{%d}' % i for i in range(nargs)))),
@@ -520,7 +520,7 @@ C10_BUILTINS = set('substr lsubstr rsubstr subraw strpos replace trim ltrim rtri
 # compiled type of the builtins whose type() is a constant (blocc/builtin/builtin_<name>.h / .cpp): checked as C02
 BUILTIN_FIXED_TYPE = dict(atan2='NUMERIC',
                           imag='NUMERIC', iphase='NUMERIC', iconj='IMAGINARY', bool='BOOLEAN', isnull='BOOLEAN', strlen='INTEGER', strpos='INTEGER', typeof='LITERAL', str='LITERAL', b64enc='LITERAL', b64dec='TABCHAR', int='INTEGER', num='NUMERIC', isnum='BOOLEAN', getenv='LITERAL', lower='LITERAL', upper='LITERAL',
-                          lsubstr='LITERAL', rsubstr='LITERAL', substr='LITERAL', trim='LITERAL', ltrim='LITERAL', rtrim='LITERAL', hex='LITERAL', subraw='TABCHAR', raw='TABCHAR')
+                          lsubstr='LITERAL', rsubstr='LITERAL', substr='LITERAL', replace='LITERAL', trim='LITERAL', ltrim='LITERAL', rtrim='LITERAL', hex='LITERAL', subraw='TABCHAR', raw='TABCHAR')
 # builtins whose type() is complex for a complex first argument and decimal otherwise
 BUILTIN_FOLLOWS_COMPLEX = {'cos', 'exp', 'log', 'sin', 'sqrt', 'tan', 'ceil', 'floor', 'round', 'acos', 'asin', 'atan', 'cosh', 'sinh', 'tanh', 'log10'}
 # builtins typed like their first argument / like an arithmetic operator on two numbers
@@ -542,6 +542,7 @@ BUILTINS_GENERIC = [
     ('trim', 'TRIMExpression', 1, 8, 'character loops over a string of at most 2 characters (operand bound)', 2),
     ('ltrim', 'LTRIMExpression', 1, 8, 'character loops over a string of at most 2 characters (operand bound)', 2),
     ('rtrim', 'RTRIMExpression', 1, 8, 'character loops over a string of at most 2 characters (operand bound)', 2),
+    ('replace', 'REPLACEExpression', 3, 8, 'search loop over a subject of at most 2 characters (operand bound): at most 3 searches', 2),
     ('hex', 'HEXExpression', 2, 17, 'HEXExpression::hex writes the 16 hexadecimal digits of a 64-bit value: 15 iterations, complete'),
 ]
 if os.environ.get('VERIF_BUILTINS'):   # experiments only (tools/try_builtins.sh): name:Class:nargs,...
